@@ -22,7 +22,7 @@ pr = ck.prove() if translator_error is None else None
 
 # ---------------------------------------------------------------- harness build (four parts in parallel)
 builds = {}
-PARTS = (1, 2, 4, 8)          # harness compiled in four parts: reps 0,1 / 2 / 3,4 / 5,6
+PARTS = (1, 2, 4, 8)          # harness compiled in four parts: reps 0,1 / 2,6 / 3,4 / 5
 def _build(part):
     builds[part] = ck.build_cpp("c03_harness_%d" % part, ["harness/C03/sort_harness.cpp"], extra=["-DC03_PART=%d" % part])
 ths = [threading.Thread(target=_build, args=(p,)) for p in PARTS]
@@ -101,7 +101,8 @@ def gen_small():
     aname, alpha = rng.choice(ALPHABETS)
     if rep in (5, 6):            # CharStringSet / CCharStringSet compare `char` as signed: only 7-bit bytes (see report / known finding)
         aname, alpha = rng.choice([a for a in ALPHABETS if max(a[1]) < 0x80])
-    if rng.chance(1, 3): mem = rng.choice(MEMS)
+    if rng.chance(1, 12): mem = rng.choice([rng.next(), 2 ** 63 + rng.below(3) - 1, SIZE_MAX - 1 - rng.below(3000), rng.below(2 ** 32)])   # arbitrary limits
+    elif rng.chance(1, 3): mem = rng.choice(MEMS)
     else:
         tm = threshold_mems(rep, lcp, n)
         mem = rng.choice(tm) if tm and rng.chance(3, 4) else rng.choice(MEMS)
@@ -112,7 +113,8 @@ def gen_small():
             text = (per * (n // len(per) + 1))[:n]
         else:
             text = bytes(alpha[rng.below(len(alpha))] for _ in range(n))
-        return mkcase(algo, rep, 0, lcp, mem, 0, [text]), (algo, rep, lcp, mem, n, shape, aname)
+        sv = rng.choice([0, 0, 1, 2])      # Initialize / all suffixes in reverse order / the suffixes at even positions only
+        return mkcase(algo, rep, sv, lcp, mem, 0, [text]), (algo, rep, lcp, mem, n if sv < 2 else (n + 1) // 2, shape, aname)
     strs = gen_strings(n, shape, alpha)
     if algo != 0 and rng.chance(1, 3):
         depth = (1 + rng.below(5)) if rng.chance(3, 4) else (6 + rng.below(40))
@@ -122,6 +124,9 @@ def gen_small():
         ov = rng.below(10) + (10 if mem == 0 and rng.chance(1, 2) else 0)      # >= 10: the memory argument is omitted
     else:
         ov = rng.choice([0, 0, 1, 2]) if algo >= 4 else rng.choice([0, 0, 1])   # view: plain / sub() with guards / shadow+flip+copy_back
+        if rep == 5 and lcp and rng.chance(1, 2):                               # LcpType = uint8_t (only while every LCP fits) / uint16_t / uint64_t
+            ov = rng.choice([3, 4, 5]) if max([len(s) for s in strs] + [0]) < 250 else rng.choice([4, 5])
+    if rep in (0, 1, 5, 6) and rng.chance(1, 6): ov += 20 if algo == 0 else 10  # equal strings are one aliased buffer
     return mkcase(algo, rep, ov, lcp, mem, depth, strs), (algo, rep, lcp, mem, n, shape, aname)
 
 def gen_big(n, kind, algo, rep, lcp, mem):
@@ -187,6 +192,12 @@ if not ck.replay:
                     cases.append(mkcase(algo, rp, view, lcp, mem, 2, strs)); meta.append((algo, rp, lcp, mem, n, "highbyte", "highbyte"))
             text = bytes(HB[rng.below(len(HB))] for _ in range(60))
             cases.append(mkcase(algo, 4, 0, lcp, 0, 0, [text])); meta.append((algo, 4, lcp, 0, 60, "highbyte", "highbyte"))
+    # common prefixes longer than 2^16 (LCP values beyond 16 bits; radix stacks / recursion 66000 levels deep); judged by the
+    # extracted checker only (char_at is O(depth) in the list model)
+    LP = bytes(1 + (i * 7919 + i // 251) % 255 for i in range(66000))            # contains 0x01 and 0xff
+    for (algo, rp, n, mem, dep) in ((0, 0, 34, 0, 0), (0, 2, 34, 10 ** 7, 0), (4, 1, 33, 0, 0), (6, 3, 40, 0, 66000), (7, 0, 3, 0, 65537), (2, 2, 2, 0, 0)):
+        strs = [LP + rstr(b"\x01\xffab", 3) for _ in range(n)]
+        cases.append(mkcase(algo, rp, 0, 1, mem, dep, strs)); meta.append((algo, rp, 1, mem, n, "longprefix", "full"))
     # (n, generator, algorithm, representation, lcp, memory); the model runs on the mem = 0 / SIZE_MAX ones
     big = [(65535, "abc", 0, 0, 1, 0), (65536, "nested", 0, 0, 1, 0), (65537, "full", 0, 2, 1, SIZE_MAX),
            (65536, "abc", 5, 1, 1, 0),
@@ -243,8 +254,8 @@ elif drv is None:
     ck.violation("extracted model/driver does not build", {"correspondence": "ocaml/C03_driver.ml", "log": dlog[-2500:]}, no_input=True)
 else:
     repof = [c.split(" ", 2)[1] for c in cases]
-    parts = {1: [i for i, r in enumerate(repof) if r in ("0", "1")], 2: [i for i, r in enumerate(repof) if r == "2"],
-             4: [i for i, r in enumerate(repof) if r in ("3", "4")], 8: [i for i, r in enumerate(repof) if r in ("5", "6")]}
+    parts = {1: [i for i, r in enumerate(repof) if r in ("0", "1")], 2: [i for i, r in enumerate(repof) if r in ("2", "6")],
+             4: [i for i, r in enumerate(repof) if r in ("3", "4")], 8: [i for i, r in enumerate(repof) if r == "5"]}
     hout = {}
     ths = [threading.Thread(target=run_harness, args=(p, parts[p], hout)) for p in PARTS]
     for t in ths: t.start()
@@ -313,7 +324,8 @@ else:
             algo, rep, lcp, mem, n, shape, aname = meta[i]
             ovf = int(cases[i].split(" ", 3)[2])
             desc = "%s on %s%s, n=%d, memory=%d, %s" % (ALGON[algo], REPNAMES[rep], " with LCP" if lcp else "", n, mem,
-                                                        ("overload %d%s" % (ovf % 10, " (memory omitted)" if ovf >= 10 else "")) if algo == 0 else "view %d" % ovf)
+                                                        ("overload %d%s%s" % (ovf % 10, " (memory omitted)" if ovf % 20 >= 10 else "", " (aliased buffers)" if ovf >= 20 else ""))
+                                                        if algo == 0 else "view/variant %d" % ovf)
             short = cases[i] if len(cases[i]) < 200000 else cases[i][:200000]
             if r["chk"] != "1":
                 if i in kf_idx:
@@ -367,18 +379,25 @@ for a in ALGON[1:]:
         for lc in ("StringPtr", "StringLcpPtr<uint32_t>"):
             api["%s(%s<%s>)" % (a, lc, s)] = 0
 for v in VIEWS: api["string_ptr.hpp view: " + v] = 0
-api["StringSuffixSet::Initialize"] = 0
+EXTRA = ["StringLcpPtr<CharStringSet, std::uint8_t> (LcpType template parameter)", "StringLcpPtr<CharStringSet, std::uint16_t>",
+         "StringLcpPtr<CharStringSet, std::uint64_t>", "C-string sets with aliased entries (one buffer several times in the array)",
+         "StringSuffixSet::Initialize", "StringSuffixSet(text, begin, end): all suffixes in reverse order", "StringSuffixSet(text, begin, end): the suffixes at even positions"]
+for x in EXTRA: api[x] = 0
 for i, c in enumerate(cases):
     if res[i] is None: continue
     f = c.split(" ", 4); algo, rp, ov, lc = int(f[0]), int(f[1]), int(f[2]), int(f[3])
+    cstr = rp in (0, 1, 5, 6)
+    if cstr and ov >= (20 if algo == 0 else 10): api[EXTRA[3]] += 1
     if algo == 0 and rp <= 2:
         o = (8 + ov % 2) if rp == 2 else min(ov % 10, 7)
         api["tlx::%s(%s%s) [%s]" % ("sort_strings_lcp" if lc else "sort_strings", OVL[o], ", std::uint32_t* lcp" if lc else "",
-                                    "memory omitted (default 0)" if ov >= 10 else "memory passed")] += 1
+                                    "memory omitted (default 0)" if ov % 20 >= 10 else "memory passed")] += 1
     else:
+        view = 0 if (algo == 0 or rp == 4) else (ov % 10 if cstr else ov)
         api["%s(%s<%s>)" % (ALGON[3 if algo == 0 else algo], "StringLcpPtr<uint32_t>" if lc else "StringPtr", SETS[rp])] += 1
-        api["string_ptr.hpp view: " + VIEWS[0 if (algo == 0 or rp == 4) else ov]] += 1
-    if rp == 4: api["StringSuffixSet::Initialize"] += 1
+        if view >= 3: api[EXTRA[view - 3]] += 1
+        else: api["string_ptr.hpp view: " + VIEWS[view]] += 1
+    if rp == 4: api[EXTRA[4 + ov]] += 1
 api_surface = {"entries_called": api, "entries_never_called_in_this_run": sorted(k for k, v in api.items() if v == 0),
                "not_driven_directly": ["StringSetBase::get_uint32/get_uint64/get_key/get_key_at (used by the parallel sample sort only)",
                                        "StringSetBase::check_order/print/get_string (debugging aids)",
